@@ -355,8 +355,9 @@ pub struct RunState<'a, M: MachineIO<MachineStack>> {
     pub io: &'a mut M,
     /// Execution Context (actually used for more than Commands)
     ctx: CommandContext,
-    // Cursors for `QueryStart` results
-    query_iter_stack: Vec<M::QueryIterator>,
+    // Cursors for `QueryStart` results, each with the fact literal it was
+    // started for (its bound value fields filter the results).
+    query_iter_stack: Vec<(Fact, M::QueryIterator)>,
     #[cfg(feature = "bench")]
     stopwatch: Stopwatch,
 }
@@ -943,22 +944,33 @@ where
             Instruction::QueryStart => {
                 let fact: Fact = self.ipop()?;
                 self.validate_fact_literal(&fact)?;
-                let iter = self.io.fact_query(fact.name, fact.keys)?;
-                self.query_iter_stack.push(iter);
+                let iter = self
+                    .io
+                    .fact_query(fact.name.clone(), fact.keys.clone())?;
+                self.query_iter_stack.push((fact, iter));
             }
             Instruction::QueryNext(ident) => {
                 // Fetch next fact from iterator
-                let iter = self.query_iter_stack.last_mut().ok_or_else(|| {
+                let (fact, iter) = self.query_iter_stack.last_mut().ok_or_else(|| {
                     MachineError::from_position(
                         MachineErrorType::BadState("QueryNext: no results"),
                         self.pc,
                         self.machine.codemap.as_ref(),
                     )
                 })?;
+                // Skip facts whose value fields differ from the bound ones,
+                // as `query`, `exists` and the counting functions do.
+                let mut next = None;
+                for result in iter.by_ref() {
+                    let (k, v) = result?;
+                    if fact_match(fact, &k, &v) {
+                        next = Some((k, v));
+                        break;
+                    }
+                }
                 // Update `as` variable value and push an end-of-results bool.
-                match iter.next() {
-                    Some(result) => {
-                        let (k, v) = result?;
+                match next {
+                    Some((k, v)) => {
                         let mut fields: Vec<KVPair> = vec![];
                         fields.append(&mut k.into_iter().map(Into::into).collect());
                         fields.append(&mut v.into_iter().map(Into::into).collect());
